@@ -15,6 +15,7 @@ pub mod c12;
 pub mod c13;
 pub mod c14;
 pub mod c15;
+pub mod c16;
 pub mod c20;
 
 pub fn property(id: &str) -> Option<Property> {
@@ -34,6 +35,7 @@ pub fn property(id: &str) -> Option<Property> {
         "C13" => Some(c13::property()),
         "C14" => Some(c14::property()),
         "C15" => Some(c15::property()),
+        "C16" => Some(c16::property()),
         "C20" => Some(c20::property()),
         _ => None,
     }
